@@ -5,6 +5,8 @@
 From Coq Require Import List String Permutation.
 Require Import OV.Determinism.Perm OV.Determinism.PermProofs.
 Require Import OV.Determinism.MustDef OV.Determinism.MustDefProofs OV.Determinism.RuleCfgsOk OV.Gen.RuleCfgs.
+Require Import OV.Determinism.KeyedCache OV.Determinism.KeyedCacheProofs OV.Determinism.EvaluatorCacheOk OV.Gen.EvaluatorCache.
+From Coq Require Import Arith.
 Import ListNotations.
 
 (* A. a site that lists a set with sorted(...) emits the same thing for every enumeration of the set
@@ -89,3 +91,34 @@ Print Assumptions C14_fold_pass_history_independent.
 Theorem C14_stale_cache_invisible : forall k c stale, (forall v, ~ In (k, v) stale) -> lookup k (c ++ stale) = lookup k c.
 Proof. exact lookup_app_fresh. Qed.
 Print Assumptions C14_stale_cache_invisible.
+
+(* C. a process-wide memo table keyed by a projection k of the request (module-level ReferenceEvaluator of the
+   constant folder): the answers do not depend on the history of earlier requests iff what is computed on a
+   miss factors through k *)
+Theorem C14_keyed_memo_history_independent : forall (X K V : Type) (K_eq_dec : forall a b : K, {a = b} + {a <> b})
+  (k : X -> K) (f : X -> V), factors_through_key k f ->
+  forall (h : list X) (x : X), answer_after K_eq_dec k f h x = f x.
+Proof. exact keyed_memo_history_independent. Qed.
+Print Assumptions C14_keyed_memo_history_independent.
+
+Theorem C14_keyed_memo_history_independent_only_if : forall (X K V : Type) (K_eq_dec : forall a b : K, {a = b} + {a <> b})
+  (k : X -> K) (f : X -> V),
+  (forall (h : list X) (x : X), answer_after K_eq_dec k f h x = f x) -> factors_through_key k f.
+Proof. exact keyed_memo_history_independent_only_if. Qed.
+Print Assumptions C14_keyed_memo_history_independent_only_if.
+
+(* C. the reference implementation looked up under (op type) instead of (op type, opset version): after an
+   opset-11 request for Unsqueeze, an opset-18 request gets the opset-11 implementation *)
+Theorem C14_key_without_version_refuted : exists (h : list (string * nat)) (x : string * nat),
+  answer_after string_dec key_without_version impl_of h x <> impl_of x.
+Proof. exact key_without_version_refuted. Qed.
+Print Assumptions C14_key_without_version_refuted.
+
+(* C. every memo table the translator finds in the current sources has a key that contains all parameters
+   the memoizing method uses *)
+Theorem C14_source_memos_history_independent : forall m, In m EvaluatorCache.memos ->
+  forall (V : Type) (f : env -> V), depends_only_on f (m_fun_params m) ->
+  forall (h : list env) (x : env),
+    answer_after (list_eq_dec Nat.eq_dec) (project (m_key_params m)) f h x = f x.
+Proof. exact source_memos_history_independent. Qed.
+Print Assumptions C14_source_memos_history_independent.
